@@ -13,8 +13,13 @@ def decode(p):
     try:
         if f[0] == "X":
             mode = {"p": "plain", "t": "inside try { } except { x.mark(1) }", "s": "as the body of a sink triggered by an event",
-                    "d": "as one of two sinks on the same event", "w": "as a sink triggered twice"}[f[1]]
+                    "d": "as the LAST of two sinks on the same event", "f": "as the FIRST of two sinks on the same event",
+                    "m": "as the middle one of three sinks on the same event", "w": "as a sink triggered twice"}[f[1]]
             return {"kind": f[2], "mode": mode, "source": bytes.fromhex(f[4]).decode("utf8", "replace") if f[4] != "-" else ""}
+        if f[0] == "D":
+            return {"kind": "acyclic container nested deeply, then one operation that recurses over it in Go", "variant": f[1], "depth": int(f[2])}
+        if f[0] == "T":
+            return {"kind": "cron + pulse trigger firing after Processor.Finish()"}
         if f[0] == "K":
             return {"kind": "shared container, sink triggered without waiting", "variant": f[1], "workers": int(f[2]),
                     "mutex": f[3] == "1", "iterations": int(f[4])}
@@ -32,10 +37,10 @@ def decode(p):
 GEN = os.path.join(checklib.LEAN, "Ecal", "Gen", "C06.lean")
 BASELINE = os.path.join(checklib.LEAN, "Ecal", "Gen", "C06Expected.txt")
 
-ALL_FAMILIES = ["conc", "sinkattr2", "directed", "corpus", "binop", "prefix", "read", "write", "read2", "write2", "write3", "dot", "dotw",
+ALL_FAMILIES = ["conc", "depth", "trigger", "import", "sinkattr2", "directed", "corpus", "binop", "prefix", "read", "write", "read2", "write2", "write3", "dot", "dotw",
                 "builtin", "sinkattr", "event", "random"]
 SCOPE_FAMILIES = ["read", "write", "read2", "write2", "write3", "dot", "dotw", "directed", "random"]
-ENGINE_FAMILIES = ["event", "sinkattr", "sinkattr2", "conc", "directed"]
+ENGINE_FAMILIES = ["event", "sinkattr", "sinkattr2", "conc", "trigger", "depth", "directed"]
 BUILTIN_TYPES = {"rangeFunc": ["range"], "newFunc": ["new"], "typeFunc": ["type"], "lenFunc": ["len"], "delFunc": ["del"],
                  "addFunc": ["add"], "concatFunc": ["concat"], "nowFunc": ["now"], "randFunc": ["rand"],
                  "timestampFunc": ["timestamp"], "dumpenvFunc": ["dumpenv"], "docFunc": ["doc"], "sleepFunc": ["sleep"],
@@ -283,7 +288,7 @@ def _run_driver(ctx, prop, cases, *a, **kw):
         inside = sum(1 for at in progs if at["frag"] == "1")
         ctx.coverage["frag_share"] = {"program_cases": len(progs), "inside_Frag": inside,
                                       "share": round(inside / len(progs), 4),
-                                      "meaning": "generated programs (tree from the real parser) for which fragB holds, i.e. to which eval_never_panics_partial applies"}
+                                      "meaning": "generated programs (tree from the real parser) for which fragB holds, i.e. to which eval_never_panics_frag applies"}
     for i, (m, attrs) in list(model.items()):
         if attrs.get("cyc") == "1" and _last_go.get(i) == "CRASH so-stringify":
             model[i] = ("CRASH so-stringify", {"kf": "cyclic-container-stringify", "spec": "CRASH so-stringify"})
